@@ -598,6 +598,8 @@ func checkC14(c *Ctx) (string, bool, []string) {
 	}
 	// every fixed statement under 60 (600) different random schedules
 	nf := c.N(60, 600)
+	// a clone taken before anything in the process has used local time
+	envProbe(c, "env-local-clone", "clone-differs")
 	mon.Parallel(len(c14Fixed)*nf, c.Workers, func(j int) {
 		local := map[string]int64{}
 		t := c14Fixed[j%len(c14Fixed)]
